@@ -220,6 +220,16 @@ pub struct NamingCase {
     pub text: String,
 }
 
+const NAME_RELATIONS: usize = usize::MAX;
+const SHAPES: usize = usize::MAX - 1;
+fn carrier_name(cs: &[Carrier], i: usize) -> &'static str {
+    match i {
+        NAME_RELATIONS => "name-relation space",
+        SHAPES => "grammar shapes",
+        _ => cs[i].name,
+    }
+}
+
 const CRATE_PRELUDE: &str = "pub struct P; // a payload type with no derives and no trait implementations at all\n";
 
 fn compile_finding(source: &str, carrier: &str, renames: &[(String, String)], err: &str) -> Finding {
@@ -306,6 +316,68 @@ pub fn run(ctx: &Ctx) -> Outcome {
             _ => skipped_not_ok += 1,
         }
     }
+    // related names (prefixes, case variants, digits, underscores) in pairs of roles
+    let before_names = cases.len();
+    for nc in crate::names::relation_cases(ctx.tier.pick(1, 2)) {
+        if nc.duplicate_fields {
+            skipped_not_ok += 1;
+            continue;
+        }
+        match generate(&nc.source) {
+            Gen::Ok(text) => cases.push(NamingCase { carrier: NAME_RELATIONS, renames: vec![("roles".into(), nc.label.clone())], source: nc.source, text }),
+            _ => skipped_not_ok += 1,
+        }
+    }
+    let name_relation_modules = cases.len() - before_names;
+    // grammar shapes: "whenever generate returns Ok" also ranges over the grammar, not only over the names -
+    // every accepted grammar of small scopes (no terminals at all, one terminal, up to four nonterminals,
+    // variant-less enums, unreachable and unproductive symbols) and the presentation space, with the
+    // trait-less payload type and no attributes
+    let before_shapes = cases.len();
+    let mut shape_scopes = vec![];
+    {
+        use crate::gramsweep::{g, gsym, Spec};
+        use crate::scopes::*;
+        let specs: Vec<Spec> = match ctx.tier {
+            Tier::Quick => vec![g(2, 0, 2, 2), g(2, 1, 2, 2), gsym(2, 2, 2, 2), g(3, 1, 3, 1), gsym(3, 2, 3, 1), gsym(4, 0, 4, 1), Spec::PSpace { max_fields: 2, recursion: false }],
+            Tier::Thorough => vec![g(2, 0, 2, 2), g(2, 1, 2, 2), g(2, 2, 2, 2), g(3, 1, 3, 1), gsym(3, 2, 3, 1), gsym(4, 0, 4, 1), gsym(3, 0, 3, 2), gsym(2, 2, 3, 2), Spec::PSpace { max_fields: 3, recursion: true }],
+        };
+        for spec in &specs {
+            let b = cases.len();
+            let mut n = 0u64;
+            let mut add = |gr: Grammar, mut pres: Presentation, cases: &mut Vec<NamingCase>| {
+                n += 1;
+                pres.payload = "crate::P".into();
+                pres.attribute = String::new();
+                let case = Case::new(gr, pres);
+                if let Gen::Ok(text) = generate(&case.rendered.source) {
+                    cases.push(NamingCase { carrier: SHAPES, renames: vec![], source: case.rendered.source.clone(), text });
+                }
+            };
+            match spec {
+                Spec::G(sc) => {
+                    let rhss = all_rhs(sc.n, sc.t, sc.k);
+                    let mut idx = 0u64;
+                    for unit in work_units(sc, u128::MAX) {
+                        for_each_completion(sc, &rhss, &unit, &mut |gr| {
+                            let pres = Presentation::rotating(&gr, idx);
+                            add(gr, pres, &mut cases);
+                            idx += 1;
+                        });
+                    }
+                }
+                Spec::PSpace { max_fields, recursion } => {
+                    for p in crate::pspace::patterns(*max_fields, *recursion).into_iter().chain(crate::pspace::long_patterns(crate::pspace::LONG_MAX)) {
+                        let (gr, pres, _) = crate::pspace::build(&p);
+                        add(gr, pres, &mut cases);
+                    }
+                }
+                _ => unreachable!(),
+            }
+            shape_scopes.push(json!({"name": spec.name(), "size": n, "accepted_modules": cases.len() - b, "completed": true, "exhaustive": true}));
+        }
+    }
+    let shape_modules = cases.len() - before_shapes;
     let deviation1 = cases.len();
     if ctx.tier == Tier::Thorough {
         // deviation 2: every pair of assignments over the curated pools, on the three main carriers
@@ -333,19 +405,22 @@ pub fn run(ctx: &Ctx) -> Outcome {
             failing += 1;
             distinct_errors.insert(e.chars().take(80).collect());
             let c = &cases[i];
-            out.push(compile_finding(&c.source, cs[c.carrier].name, &c.renames, e));
+            out.push(compile_finding(&c.source, carrier_name(&cs, c.carrier), &c.renames, e));
         }
     }
     let distinct_sources: BTreeSet<&String> = cases.iter().map(|c| &c.source).collect();
     out.cov("evaluations", json!(cases.len()));
     out.cov("distinct_nontrivial", json!(distinct_sources.len()));
-    out.cov("rule", json!("one evaluation = one naming of a carrier grammar (generate returned Ok) compiled by rustc --emit=metadata as a module of a crate that only defines `pub struct P;`; distinct = distinct grammar source texts; every case is non-trivial (a full type and borrow check of the emitted module)"));
+    out.cov("rule", json!("one evaluation = one naming of a carrier grammar, one pair of related names in the name-relation grammar, or one accepted grammar of the shape scopes (generate returned Ok) compiled by rustc --emit=metadata as a module of a crate that only defines `pub struct P;`; distinct = distinct grammar source texts; every case is non-trivial (a full type and borrow check of the emitted module)"));
     out.cov("exhaustive", json!(true));
     out.cov("scopes", json!({
         "carriers": cs.iter().map(|c| c.name).collect::<Vec<_>>(),
         "conventional_namings": conventional,
         "deviation_1_modules_and_uniquifier_chains": deviation1,
         "deviation_2_modules": cases.len() - deviation1,
+        "name_relation_modules": name_relation_modules,
+        "grammar_shape_modules": shape_modules,
+        "grammar_shape_scopes": shape_scopes,
         "pool_upper_case": upper1.len(), "pool_lower_case": lower1.len(),
         "mechanical_pool_upper": mech_upper.len(), "mechanical_pool_lower": mech_lower.len(),
         "namings_outside_the_precondition (rejected by generate itself, or two equal field names in one fieldset)": skipped_not_ok,
@@ -353,7 +428,7 @@ pub fn run(ctx: &Ctx) -> Outcome {
     out.cov("modules_failing_to_compile", json!(failing));
     out.cov("distinct_error_heads", json!(distinct_errors));
     out.cov("rustc_seconds", json!((secs * 10.0).round() / 10.0));
-    let samples: Vec<Value> = take_samples(&cases.iter().map(|c| json!({"carrier": cs[c.carrier].name, "renamed": c.renames, "source": c.source})).collect::<Vec<_>>(), 4, ctx.seed);
+    let samples: Vec<Value> = take_samples(&cases.iter().map(|c| json!({"carrier": carrier_name(&cs, c.carrier), "renamed": c.renames, "source": c.source})).collect::<Vec<_>>(), 4, ctx.seed);
     out.cov("samples", json!(samples));
     out.cov("mechanical_pool_sample", json!(mech_upper.iter().take(40).collect::<Vec<_>>()));
     out.assumptions = vec!["identifiers that are Rust keywords or prelude items are excluded (precondition of the property)".into(), "rustc 1.95 --emit=metadata is the judge of 'compiles'".into()];
